@@ -21,6 +21,7 @@
 #   H1  grow_data_arrays always grows by << 3 instead of << rf_ (different growth factor)
 #   H2  independent statements reordered in update_light (++m_ first), decrease_k_by_1 (--n_, --k_, --h_) and reset()
 import struct
+from collections import Counter
 from fractions import Fraction
 
 PROP = "C16"
@@ -346,12 +347,8 @@ def oracle(case, irecs, mrecs):
                 bad('n_mismatch', 'get_n %d != number of accepted updates %d' % (n, n_true), i)
             if ns != min(n_true, k) or len(smp) != ns:
                 bad('num_samples', 'num_samples %d (iterated %d) != min(n=%d, k=%d)' % (ns, len(smp), n_true, k), i)
-            items = {}
-            for it, wb in log:
-                items[it] = items.get(it, 0) + 1
-            pairs = {}
-            for p in log:
-                pairs[p] = pairs.get(p, 0) + 1
+            items = Counter(it for it, _ in log)
+            pairs = Counter(log)
             sitems = {}
             for it, wb in smp:
                 sitems[it] = sitems.get(it, 0) + 1
@@ -369,7 +366,7 @@ def oracle(case, irecs, mrecs):
                 if exact and hsum + fr(totb) != total:
                     bad('weight_not_conserved_exact', 'H weights + total_wt_r = %s != total input weight %s (dyadic inputs)' %
                         (float(hsum + fr(totb)), float(total)), i)
-                thr = Fraction(tau_f) if exact else Fraction(tau_f) * (1 + Fraction(1, 10 ** 12))
+                thr = tau_f if exact else tau_f * (1 + 1e-12)      # doubles compare exactly; no Fractions per log entry
             else:
                 taub = None; thr = None
                 if exact and ssum != total:
@@ -378,7 +375,7 @@ def oracle(case, irecs, mrecs):
             for p in smp:
                 spairs[p] = spairs.get(p, 0) + 1
             for p, c2 in pairs.items():
-                if (thr is None or fr(p[1]) > thr) and spairs.get(p, 0) < c2:
+                if (thr is None or b2d(p[1]) > thr) and spairs.get(p, 0) < c2:
                     bad('heavy_item_lost', 'input item %d with weight %r above tau is not in the sample with its exact weight' %
                         (p[0], b2d(p[1])), i)
                     break
